@@ -1020,3 +1020,373 @@ Section Final.
     - unfold cv_fj. rewrite E. reflexivity.
   Qed.
 End Final.
+
+(* ================================================================== the angle guard from the documented singularities *)
+Section AngleGuard.
+  Variable mass : nat -> R.
+  Variable pos : RF.
+  Lemma ang_guard g1 g2 g3 :
+    0 < vnorm2 Rops (ang_r21 Rops mass pos g1 g2) -> 0 < vnorm2 Rops (ang_r23 Rops mass pos g2 g3) ->
+    ang_cos Rops mass pos g1 g2 g3 * ang_cos Rops mass pos g1 g2 g3 < 1 ->
+    0 < vnorm2 Rops (ang_dxdr1 Rops PI mass pos g1 g2 g3) /\ 0 < vnorm2 Rops (ang_dxdr3 Rops PI mass pos g1 g2 g3).
+  Proof.
+    intros H1 H3 Hc. unfold ang_dxdr1, ang_dxdr3. cbv zeta.
+    set (c := ang_cos Rops mass pos g1 g2 g3) in *.
+    assert (Ec : c = vdot Rops (ang_r21 Rops mass pos g1 g2) (ang_r23 Rops mass pos g2 g3)
+                     / (vnorm Rops (ang_r21 Rops mass pos g1 g2) * vnorm Rops (ang_r23 Rops mass pos g2 g3))) by reflexivity.
+    set (r21 := ang_r21 Rops mass pos g1 g2) in *. set (r23 := ang_r23 Rops mass pos g2 g3) in *.
+    pose proof (vnorm_pos r21 H1) as L1. pose proof (vnorm_pos r23 H3) as L3.
+    pose proof (vnorm_sq r21) as S1. pose proof (vnorm_sq r23) as S3.
+    set (l1 := vnorm Rops r21) in *. set (l3 := vnorm Rops r23) in *.
+    assert (Hs : 0 < sqrt (1 - c * c)) by (apply sqrt_lt_R0; lra).
+    pose proof (sqrt_sqrt (1 - c * c)) as Hss. assert (Hss' : sqrt (1 - c * c) * sqrt (1 - c * c) = 1 - c * c) by (apply Hss; lra).
+    set (q := sqrt (1 - c * c)) in *.
+    pose proof PI_RGT_0 as Hpi.
+    rewrite !vnorm2_vscale. rs.
+    assert (Hd : vdot Rops r21 r23 = c * (l1 * l3)) by (rewrite Ec; field; lra).
+    assert (W1 : vnorm2 Rops (vadd Rops (vscale Rops (1 / l3) r23) (vscale Rops (- (1) * c) (vscale Rops (1 / l1) r21))) = 1 - c * c).
+    { transitivity (vnorm2 Rops r23 / (l3 * l3) - 2 * c * vdot Rops r21 r23 / (l1 * l3) + c * c * vnorm2 Rops r21 / (l1 * l1)).
+      - clear Hd Ec S1 S3. clearbody c l1 l3 r21 r23. vd; vu. field. lra.
+      - rewrite Hd, <- S1, <- S3. field. lra. }
+    assert (W3 : vnorm2 Rops (vadd Rops (vscale Rops (1 / l1) r21) (vscale Rops (- (1) * c) (vscale Rops (1 / l3) r23))) = 1 - c * c).
+    { transitivity (vnorm2 Rops r21 / (l1 * l1) - 2 * c * vdot Rops r21 r23 / (l1 * l3) + c * c * vnorm2 Rops r23 / (l3 * l3)).
+      - clear Hd Ec S1 S3. clearbody c l1 l3 r21 r23. vd; vu. field. lra.
+      - rewrite Hd, <- S1, <- S3. field. lra. }
+    rewrite W1, W3. unfold deg. rs.
+    assert (K1 : 0 < 180 / PI * (- (1) / q) * (1 / l1) * (180 / PI * (- (1) / q) * (1 / l1))).
+    { replace (180 / PI * (- (1) / q) * (1 / l1) * (180 / PI * (- (1) / q) * (1 / l1)))
+        with ((180 / (PI * q * l1)) * (180 / (PI * q * l1))) by (field; lra).
+      assert (Hden : 0 < PI * q * l1) by (apply Rmult_lt_0_compat; [apply Rmult_lt_0_compat; lra | lra]).
+      assert (Hq : 0 < 180 / (PI * q * l1)) by (apply Rdiv_lt_0_compat; lra).
+      apply Rmult_lt_0_compat; exact Hq. }
+    assert (K3 : 0 < 180 / PI * (- (1) / q) * (1 / l3) * (180 / PI * (- (1) / q) * (1 / l3))).
+    { replace (180 / PI * (- (1) / q) * (1 / l3) * (180 / PI * (- (1) / q) * (1 / l3)))
+        with ((180 / (PI * q * l3)) * (180 / (PI * q * l3))) by (field; lra).
+      assert (Hden : 0 < PI * q * l3) by (apply Rmult_lt_0_compat; [apply Rmult_lt_0_compat; lra | lra]).
+      assert (Hq : 0 < 180 / (PI * q * l3)) by (apply Rdiv_lt_0_compat; lra).
+      apply Rmult_lt_0_compat; exact Hq. }
+    split; apply Rmult_lt_0_compat; [exact K1 | lra | exact K3 | lra].
+  Qed.
+End AngleGuard.
+
+(* ================================================================== a concrete system: the premises are satisfiable *)
+Definition ex_mass : nat -> R := fun _ => 1.
+Definition ex_pos : RF := fun a =>
+  match a with 0%nat => (1, 0, 0) | 1%nat => (0, 0, 0) | 2%nat => (0, 1, 0) | 3%nat => (0, 1, 1) | _ => (0, 0, 0) end.
+Definition G (a : nat) : RG := GAtoms [a].
+
+Lemma gcom_single a : gcom Rops ex_mass ex_pos (G a) = ex_pos a.
+Proof.
+  unfold G, gcom, gmass, ex_mass, tsum, vsum. cbn [map fold_right]. destruct (ex_pos a) as [[x y] z].
+  unfold vscale, vadd, vzero. rs. f_equal; [f_equal|]; field.
+Qed.
+Lemma ex_gok a : gok ex_mass (G a).
+Proof. split; [eexists; reflexivity|]. unfold G, gmass, ex_mass, tsum. cbn [map fold_right]. rs. lra. Qed.
+Lemma ex_disj a b : a <> b -> disj (G a) (G b).
+Proof. intros H c [Hc|[]] [Hd|[]]. congruence. Qed.
+
+Lemma ex_axis : vdot Rops ((0, 0, 1) : RV) (0, 0, 1) = 1.
+Proof. unfold vdot. rs. ring. Qed.
+Lemma ex_dxy : dxy_value Rops ex_mass ex_pos (G 0) (G 1) None (0, 0, 1) <> 0.
+Proof.
+  unfold dxy_value, dxy_ortho, dxy_dist_v, dz_axis. rewrite !gcom_single. cbn [ex_pos].
+  unfold vnorm, vnorm2, vdot, vsub, vscale. rs.
+  apply Rgt_not_eq, Rlt_gt, sqrt_lt_R0. lra.
+Qed.
+
+Lemma ex_angle :
+  0 < vnorm2 Rops (ang_r21 Rops ex_mass ex_pos (G 0) (G 1)) /\ 0 < vnorm2 Rops (ang_r23 Rops ex_mass ex_pos (G 1) (G 2)) /\
+  ang_cos Rops ex_mass ex_pos (G 0) (G 1) (G 2) * ang_cos Rops ex_mass ex_pos (G 0) (G 1) (G 2) < 1.
+Proof.
+  unfold ang_cos, ang_r21, ang_r23. rewrite !gcom_single. cbn [ex_pos].
+  unfold vnorm, vnorm2, vdot, vsub. rs. repeat split; try lra.
+Qed.
+Lemma ex_dihedral :
+  0 < vnorm2 Rops (vcross Rops (dih_r12 Rops ex_mass ex_pos (G 0) (G 1)) (dih_r12 Rops ex_mass ex_pos (G 1) (G 2))) /\
+  0 < vnorm2 Rops (vcross Rops (dih_r12 Rops ex_mass ex_pos (G 1) (G 2)) (dih_r12 Rops ex_mass ex_pos (G 2) (G 3))).
+Proof.
+  unfold dih_r12. rewrite !gcom_single. cbn [ex_pos]. unfold vnorm2, vdot, vcross, vsub. rs. split; lra.
+Qed.
+Lemma ex_cog2 : cog Rops ex_pos [0%nat; 1%nat] = (1 / 2, 0, 0).
+Proof. unfold cog, vsum, ofnat. cbn [map fold_right length ex_pos]. unfold vscale, vadd, vzero. rs. change (IZR (Z.of_nat 2)) with 2. f_equal; [f_equal|]; field. Qed.
+Lemma ex_gyration : NoDup [0%nat; 1%nat] /\ gyr_value Rops ex_pos [0%nat; 1%nat] <> 0.
+Proof.
+  split; [repeat constructor; cbn; intuition congruence|].
+  unfold gyr_value, gyr_pos, frame_pos. rewrite ex_cog2. unfold norm2_sum, tsum, ofnat. cbn [map fold_right length ex_pos].
+  unfold vnorm2, vdot, vadd, vsub, vzero. rs. change (IZR (Z.of_nat 2)) with 2.
+  apply Rgt_not_eq, Rlt_gt, sqrt_lt_R0. lra.
+Qed.
+Definition ex_refs : list RV := [(0, 0, 0); (0, 0, 0)].
+Lemma ex_rmsd c : c = None \/ c = Some (0, 0, 0) ->
+  NoDup [0%nat; 1%nat] /\ length ex_refs = length [0%nat; 1%nat] /\ rmsd_value Rops ex_pos [0%nat; 1%nat] ex_refs c <> 0 /\
+  (forall rc, c = Some rc -> vsum Rops ex_refs = vscale Rops (ofnat Rops (length [0%nat; 1%nat])) rc).
+Proof.
+  intros Hc. split; [repeat constructor; cbn; intuition congruence|]. split; [reflexivity|]. split.
+  - unfold rmsd_value, rmsd_diff, frame_pos. destruct Hc as [-> | ->].
+    + unfold norm2_sum, tsum, ofnat, ex_refs. cbn [map fold_right length ex_pos vsub_list].
+      unfold vnorm2, vdot, vsub. rs. change (IZR (Z.of_nat 2)) with 2. apply Rgt_not_eq, Rlt_gt, sqrt_lt_R0. lra.
+    + rewrite ex_cog2. unfold norm2_sum, tsum, ofnat, ex_refs. cbn [map fold_right length ex_pos vsub_list].
+      unfold vnorm2, vdot, vsub, vadd. rs. change (IZR (Z.of_nat 2)) with 2. apply Rgt_not_eq, Rlt_gt, sqrt_lt_R0. lra.
+  - intros rc E. destruct Hc as [-> | ->]; [discriminate|]. inversion E; subst.
+    unfold ex_refs, vsum, ofnat. cbn [fold_right length]. unfold vadd, vscale, vzero. rs. f_equal; [f_equal|]; ring.
+Qed.
+Definition ex_evec : list RV := [(1, 0, 0); (-1, 0, 0)].
+Lemma ex_eigenvector : NoDup [0%nat; 1%nat] /\ length ex_evec = length [0%nat; 1%nat] /\ norm2_sum Rops (eig_vec Rops ex_evec) <> 0.
+Proof.
+  split; [repeat constructor; cbn; intuition congruence|]. split; [reflexivity|].
+  unfold eig_vec, vmean, ex_evec, vsum, ofnat, norm2_sum, tsum. cbn [map fold_right length].
+  unfold vnorm2, vdot, vsub, vadd, vscale, vzero. rs. change (IZR (Z.of_nat 2)) with 2. lra.
+Qed.
+
+Definition ex_cv (h sb sm : bool) (kT : R) : @colvar R :=
+  mkColvar [(CDistance (G 0) (G 1) false, 1); (CDistance (G 2) (G 3) false, -1)] h sb sm kT.
+Lemma ex_cv_ok pos h sb sm kT : cv_inv_ok ex_mass pos (ex_cv h sb sm kT).
+Proof.
+  unfold cv_inv_ok, ex_cv. cbn [cv_comps]. repeat split.
+  - repeat constructor; cbn [fst]; intros fc; apply inv_distance; auto using ex_gok, ex_disj.
+  - repeat constructor; cbn [fst]. intros a Ha Hb. cbn in Ha, Hb. intuition congruence.
+  - unfold cv_sqnorm, tsum. cbn [cv_comps map fold_right snd]. rs. lra.
+Qed.
+Lemma ex_cv_pm1 h sb sm kT : cv_comps (ex_cv h sb sm kT) <> [] /\ Forall (fun p => snd p = 1 \/ snd p = -1) (cv_comps (ex_cv h sb sm kT)).
+Proof. split; [discriminate|]. unfold ex_cv; cbn [cv_comps]. constructor; [left; reflexivity|]. constructor; [right; reflexivity|]. constructor. Qed.
+
+(* ================================================================== statements of Properties_C07.v, verbatim *)
+Lemma thm_inverse_distance : forall (mass : nat -> R) (pos : RF) (g1 g2 : RG) (fc : R),
+  gok mass g1 -> gok mass g2 -> disj g1 g2 ->
+  cvc_ft Rops PI mass pos (CDistance g1 g2 false) (cvc_apply Rops PI mass pos (CDistance g1 g2 false) fc) = fc.
+Proof. exact inv_distance. Qed.
+Lemma thm_inverse_distance_onesite : forall (mass : nat -> R) (pos : RF) (g1 g2 : RG) (fc : R),
+  gok mass g1 -> disj g1 g2 ->
+  cvc_ft Rops PI mass pos (CDistance g1 g2 true) (cvc_apply Rops PI mass pos (CDistance g1 g2 true) fc) = fc.
+Proof. exact inv_distance_onesite. Qed.
+Lemma thm_inverse_distanceZ : forall (mass : nat -> R) (pos : RF) (gm gr : RG) (axis : RV) (fc : R),
+  gok mass gm -> gok mass gr -> disj gm gr -> vdot Rops axis axis = 1 ->
+  cvc_ft Rops PI mass pos (CDistanceZ gm gr None axis false) (cvc_apply Rops PI mass pos (CDistanceZ gm gr None axis false) fc) = fc.
+Proof. exact inv_distanceZ. Qed.
+Lemma thm_inverse_distanceZ_onesite : forall (mass : nat -> R) (pos : RF) (gm gr : RG) (axis : RV) (fc : R),
+  gok mass gm -> disj gm gr -> vdot Rops axis axis = 1 ->
+  cvc_ft Rops PI mass pos (CDistanceZ gm gr None axis true) (cvc_apply Rops PI mass pos (CDistanceZ gm gr None axis true) fc) = fc.
+Proof. exact inv_distanceZ_onesite. Qed.
+Lemma thm_inverse_distanceZ_ref2 : forall (mass : nat -> R) (pos : RF) (gm gr g2 : RG) (axis : RV) (os : bool) (fc : R),
+  gok mass gm -> disj gm gr -> disj gm g2 ->
+  cvc_ft Rops PI mass pos (CDistanceZ gm gr (Some g2) axis os) (cvc_apply Rops PI mass pos (CDistanceZ gm gr (Some g2) axis os) fc) = fc.
+Proof. exact inv_distanceZ_ref2. Qed.
+Lemma thm_inverse_distanceXY : forall (mass : nat -> R) (pos : RF) (gm gr : RG) (gr2 : option RG) (axis : RV) (os : bool) (fc : R),
+  gok mass gm -> (gr2 = None -> os = false -> gok mass gr) -> disj gm gr ->
+  (forall g2, gr2 = Some g2 -> disj gm g2) ->
+  dxy_value Rops mass pos gm gr gr2 axis <> 0 ->
+  cvc_ft Rops PI mass pos (CDistanceXY gm gr gr2 axis os) (cvc_apply Rops PI mass pos (CDistanceXY gm gr gr2 axis os) fc) = fc.
+Proof. exact inv_distanceXY_gen. Qed.
+Lemma thm_inverse_angle : forall (mass : nat -> R) (pos : RF) (g1 g2 g3 : RG) (fc : R),
+  gok mass g1 -> gok mass g3 -> disj g1 g2 -> disj g1 g3 -> disj g3 g2 ->
+  0 < vnorm2 Rops (ang_r21 Rops mass pos g1 g2) -> 0 < vnorm2 Rops (ang_r23 Rops mass pos g2 g3) ->
+  ang_cos Rops mass pos g1 g2 g3 * ang_cos Rops mass pos g1 g2 g3 < 1 ->
+  cvc_ft Rops PI mass pos (CAngle g1 g2 g3 false) (cvc_apply Rops PI mass pos (CAngle g1 g2 g3 false) fc) = fc.
+Proof. intros mass pos g1 g2 g3 fc H1 H3 D12 D13 D32 L1 L3 Hc.
+  destruct (ang_guard mass pos g1 g2 g3 L1 L3 Hc) as [A B]. apply inv_angle; try assumption. lra. Qed.
+Lemma thm_inverse_angle_onesite : forall (mass : nat -> R) (pos : RF) (g1 g2 g3 : RG) (fc : R),
+  gok mass g1 -> disj g1 g2 -> disj g1 g3 ->
+  0 < vnorm2 Rops (ang_r21 Rops mass pos g1 g2) -> 0 < vnorm2 Rops (ang_r23 Rops mass pos g2 g3) ->
+  ang_cos Rops mass pos g1 g2 g3 * ang_cos Rops mass pos g1 g2 g3 < 1 ->
+  cvc_ft Rops PI mass pos (CAngle g1 g2 g3 true) (cvc_apply Rops PI mass pos (CAngle g1 g2 g3 true) fc) = fc.
+Proof. intros mass pos g1 g2 g3 fc H1 D12 D13 L1 L3 Hc.
+  destruct (ang_guard mass pos g1 g2 g3 L1 L3 Hc) as [A B]. apply inv_angle_onesite; try assumption. lra. Qed.
+Lemma thm_inverse_dihedral : forall (mass : nat -> R) (pos : RF) (g1 g2 g3 g4 : RG) (fc : R),
+  gok mass g1 -> gok mass g4 -> disj g1 g2 -> disj g1 g3 -> disj g1 g4 -> disj g4 g2 -> disj g4 g3 ->
+  0 < vnorm2 Rops (vcross Rops (dih_r12 Rops mass pos g1 g2) (dih_r12 Rops mass pos g2 g3)) ->
+  0 < vnorm2 Rops (vcross Rops (dih_r12 Rops mass pos g2 g3) (dih_r12 Rops mass pos g3 g4)) ->
+  cvc_ft Rops PI mass pos (CDihedral g1 g2 g3 g4 false) (cvc_apply Rops PI mass pos (CDihedral g1 g2 g3 g4 false) fc) = fc.
+Proof. exact inv_dihedral. Qed.
+Lemma thm_inverse_dihedral_onesite : forall (mass : nat -> R) (pos : RF) (g1 g2 g3 g4 : RG) (fc : R),
+  gok mass g1 -> disj g1 g2 -> disj g1 g3 -> disj g1 g4 ->
+  0 < vnorm2 Rops (vcross Rops (dih_r12 Rops mass pos g1 g2) (dih_r12 Rops mass pos g2 g3)) ->
+  cvc_ft Rops PI mass pos (CDihedral g1 g2 g3 g4 true) (cvc_apply Rops PI mass pos (CDihedral g1 g2 g3 g4 true) fc) = fc.
+Proof. exact inv_dihedral_onesite. Qed.
+Lemma thm_inverse_gyration : forall (mass : nat -> R) (pos : RF) (ids : list nat) (fc : R),
+  NoDup ids -> gyr_value Rops pos ids <> 0 ->
+  cvc_ft Rops PI mass pos (CGyration ids) (cvc_apply Rops PI mass pos (CGyration ids) fc) = fc.
+Proof. exact inv_gyration. Qed.
+Lemma thm_inverse_rmsd : forall (mass : nat -> R) (pos : RF) (ids : list nat) (refs : list RV) (center : option RV) (fc : R),
+  NoDup ids -> length refs = length ids -> rmsd_value Rops pos ids refs center <> 0 ->
+  (forall rc, center = Some rc -> vsum Rops refs = vscale Rops (ofnat Rops (length ids)) rc) ->
+  cvc_ft Rops PI mass pos (CRmsd ids refs center) (cvc_apply Rops PI mass pos (CRmsd ids refs center) fc) = fc.
+Proof. exact inv_rmsd. Qed.
+Lemma thm_inverse_eigenvector : forall (mass : nat -> R) (pos : RF) (ids : list nat) (refs evec : list RV) (center : option RV) (fc : R),
+  NoDup ids -> length evec = length ids -> norm2_sum Rops (eig_vec Rops evec) <> 0 ->
+  cvc_ft Rops PI mass pos (CEigenvector ids refs evec center) (cvc_apply Rops PI mass pos (CEigenvector ids refs evec center) fc) = fc.
+Proof. exact inv_eigenvector. Qed.
+Lemma thm_inverse_variable : forall (mass : nat -> R) (pos : RF) (cv : colvar) (f : R),
+  Forall (fun p => forall fc, cvc_ft Rops PI mass pos (fst p) (cvc_apply Rops PI mass pos (fst p) fc) = fc) (cv_comps cv) ->
+  ForallOrdPairs (fun p q => forall a, In a (cvc_atoms (fst p)) -> ~ In a (cvc_atoms (fst q))) (cv_comps cv) ->
+  cv_sqnorm Rops cv <> 0 ->
+  cv_proj Rops PI mass pos cv (cv_apply Rops PI mass pos cv f) = f.
+Proof. exact cv_inverse. Qed.
+Lemma thm_pm1_combination : forall (mass : nat -> R) (cv : colvar) (pos : RF) (f : R),
+  cv_comps cv <> [] -> Forall (fun p => snd p = 1 \/ snd p = -1) (cv_comps cv) ->
+  Forall (fun p => forall fc, cvc_ft Rops PI mass pos (fst p) (cvc_apply Rops PI mass pos (fst p) fc) = fc) (cv_comps cv) ->
+  ForallOrdPairs (fun p q => forall a, In a (cvc_atoms (fst p)) -> ~ In a (cvc_atoms (fst q))) (cv_comps cv) ->
+  cv_proj Rops PI mass pos cv (cv_apply Rops PI mass pos cv f) = f /\
+  cv_fj Rops PI mass pos cv =
+    tsum Rops (map (fun p => cvc_jd Rops PI mass pos (fst p) * snd p / ofnat Rops (length (cv_comps cv))) (cv_comps cv)) * cv_kT cv.
+Proof. exact pm1_combination. Qed.
+Lemma thm_inverse_lagged : forall (mass : nat -> R) (cv : colvar) (pre : list einput) (s : estate) (i1 i2 : einput),
+  cv_samestep cv = false ->
+  Forall (fun p => forall fc, cvc_ft Rops PI mass (e_pos i1) (fst p) (cvc_apply Rops PI mass (e_pos i1) (fst p) fc) = fc) (cv_comps cv) ->
+  ForallOrdPairs (fun p q => forall a, In a (cvc_atoms (fst p)) -> ~ In a (cvc_atoms (fst q))) (cv_comps cv) ->
+  cv_sqnorm Rops cv <> 0 ->
+  (forall a, In a (cv_atoms cv) -> e_force i1 a = vzero Rops) ->
+  last_ft (snd (eng_run Rops PI mass cv true s (pre ++ [i1; i2]))) =
+    applied_force Rops cv (e_fb i1) (cv_fj Rops PI mass (e_pos i1) cv) + (if adds_fj cv then cv_fj Rops PI mass (e_pos i1) cv else 0)
+    - (if cv_subtract cv then applied_force Rops cv (e_fb i1) (cv_fj Rops PI mass (e_pos i1) cv) else 0).
+Proof. intros mass cv pre s i1 i2 H Hi Hd Hs Hz. assert (Hok : cv_inv_ok mass (e_pos i1) cv) by (repeat split; assumption). exact (inverse_lagged mass cv pre s i1 i2 H Hok Hz). Qed.
+Lemma thm_inverse_lagged_jacobian : forall (mass : nat -> R) (cv : colvar) (pre : list einput) (s : estate) (i1 i2 : einput),
+  cv_samestep cv = false -> cv_hide cv = false -> cv_subtract cv = false ->
+  Forall (fun p => forall fc, cvc_ft Rops PI mass (e_pos i1) (fst p) (cvc_apply Rops PI mass (e_pos i1) (fst p) fc) = fc) (cv_comps cv) ->
+  ForallOrdPairs (fun p q => forall a, In a (cvc_atoms (fst p)) -> ~ In a (cvc_atoms (fst q))) (cv_comps cv) ->
+  cv_sqnorm Rops cv <> 0 ->
+  (forall a, In a (cv_atoms cv) -> e_force i1 a = vzero Rops) ->
+  last_ft (snd (eng_run Rops PI mass cv true s (pre ++ [i1; i2]))) = e_fb i1 + cv_fj Rops PI mass (e_pos i1) cv.
+Proof. intros mass cv pre s i1 i2 H Hh Hsb Hi Hd Hs Hz. assert (Hok : cv_inv_ok mass (e_pos i1) cv) by (repeat split; assumption). exact (inverse_lagged_jacobian mass cv pre s i1 i2 H Hh Hsb Hok Hz). Qed.
+Lemma thm_inverse_lagged_hidden : forall (mass : nat -> R) (cv : colvar) (pre : list einput) (s : estate) (i1 i2 : einput),
+  cv_samestep cv = false -> cv_hide cv = true -> cv_subtract cv = false ->
+  Forall (fun p => forall fc, cvc_ft Rops PI mass (e_pos i1) (fst p) (cvc_apply Rops PI mass (e_pos i1) (fst p) fc) = fc) (cv_comps cv) ->
+  ForallOrdPairs (fun p q => forall a, In a (cvc_atoms (fst p)) -> ~ In a (cvc_atoms (fst q))) (cv_comps cv) ->
+  cv_sqnorm Rops cv <> 0 ->
+  (forall a, In a (cv_atoms cv) -> e_force i1 a = vzero Rops) ->
+  last_ft (snd (eng_run Rops PI mass cv true s (pre ++ [i1; i2]))) = e_fb i1.
+Proof. intros mass cv pre s i1 i2 H Hh Hsb Hi Hd Hs Hz. assert (Hok : cv_inv_ok mass (e_pos i1) cv) by (repeat split; assumption). exact (inverse_lagged_hidden mass cv pre s i1 i2 H Hh Hsb Hok Hz). Qed.
+Lemma thm_inverse_lagged_T0 : forall (mass : nat -> R) (cv : colvar) (pre : list einput) (s : estate) (i1 i2 : einput),
+  cv_samestep cv = false -> cv_kT cv = 0 -> cv_subtract cv = false ->
+  Forall (fun p => forall fc, cvc_ft Rops PI mass (e_pos i1) (fst p) (cvc_apply Rops PI mass (e_pos i1) (fst p) fc) = fc) (cv_comps cv) ->
+  ForallOrdPairs (fun p q => forall a, In a (cvc_atoms (fst p)) -> ~ In a (cvc_atoms (fst q))) (cv_comps cv) ->
+  cv_sqnorm Rops cv <> 0 ->
+  (forall a, In a (cv_atoms cv) -> e_force i1 a = vzero Rops) ->
+  last_ft (snd (eng_run Rops PI mass cv true s (pre ++ [i1; i2]))) = e_fb i1.
+Proof. intros mass cv pre s i1 i2 H HT Hsb Hi Hd Hs Hz. assert (Hok : cv_inv_ok mass (e_pos i1) cv) by (repeat split; assumption). exact (inverse_lagged_T0 mass cv pre s i1 i2 H HT Hsb Hok Hz). Qed.
+Lemma thm_inverse_same_step : forall (mass : nat -> R) (cv : colvar) (inc : bool) (pre : list einput) (s : estate) (i : einput) (f : R),
+  cv_samestep cv = true ->
+  Forall (fun p => forall fc, cvc_ft Rops PI mass (e_pos i) (fst p) (cvc_apply Rops PI mass (e_pos i) (fst p) fc) = fc) (cv_comps cv) ->
+  ForallOrdPairs (fun p q => forall a, In a (cvc_atoms (fst p)) -> ~ In a (cvc_atoms (fst q))) (cv_comps cv) ->
+  cv_sqnorm Rops cv <> 0 ->
+  (forall a, In a (cv_atoms cv) -> e_force i a = cv_apply Rops PI mass (e_pos i) cv f a) ->
+  last_ft (snd (eng_run Rops PI mass cv inc s (pre ++ [i]))) = f + (if cv_hide cv then 0 else cv_fj Rops PI mass (e_pos i) cv).
+Proof. intros mass cv inc pre s i f H Hi Hd Hs HF. assert (Hok : cv_inv_ok mass (e_pos i) cv) by (repeat split; assumption). exact (inverse_same mass cv inc pre s i f H Hok HF). Qed.
+Lemma thm_linear : forall (mass : nat -> R) (pos : RF) (c : RC) (F G : RF) (a b : R),
+  cvc_ft Rops PI mass pos c (fadd Rops (fscale Rops a F) (fscale Rops b G)) = a * cvc_ft Rops PI mass pos c F + b * cvc_ft Rops PI mass pos c G.
+Proof. exact cvc_ft_linear. Qed.
+Lemma thm_linear_variable : forall (mass : nat -> R) (pos : RF) (cv : colvar) (F G : RF) (a b : R),
+  cv_proj Rops PI mass pos cv (fadd Rops (fscale Rops a F) (fscale Rops b G)) = a * cv_proj Rops PI mass pos cv F + b * cv_proj Rops PI mass pos cv G.
+Proof. exact cv_proj_linear. Qed.
+Lemma thm_local : forall (mass : nat -> R) (pos : RF) (c : RC) (F G : RF),
+  (forall a, In a (cvc_atoms c) -> F a = G a) -> cvc_ft Rops PI mass pos c F = cvc_ft Rops PI mass pos c G.
+Proof. exact cvc_ft_local. Qed.
+Lemma thm_local_variable : forall (mass : nat -> R) (pos : RF) (cv : colvar) (F G : RF),
+  (forall a, In a (cv_atoms cv) -> F a = G a) -> cv_proj Rops PI mass pos cv F = cv_proj Rops PI mass pos cv G.
+Proof. exact cv_proj_local. Qed.
+Lemma thm_local_report_lagged : forall (mass : nat -> R) (cv : colvar) (inc : bool) (pre pre' : list einput) (s s' : estate) (i1 i1' i2 i2' : einput),
+  cv_samestep cv = false -> e_pos i1 = e_pos i1' -> e_fb i1 = e_fb i1' ->
+  (forall a, In a (cv_atoms cv) -> e_force i1 a = e_force i1' a) ->
+  last_ft (snd (eng_run Rops PI mass cv inc s (pre ++ [i1; i2]))) = last_ft (snd (eng_run Rops PI mass cv inc s' (pre' ++ [i1'; i2']))).
+Proof. exact local_lagged. Qed.
+Lemma thm_local_report_same_step : forall (mass : nat -> R) (cv : colvar) (inc : bool) (pre pre' : list einput) (s s' : estate) (i i' : einput),
+  cv_samestep cv = true -> e_pos i = e_pos i' ->
+  (forall a, In a (cv_atoms cv) -> e_force i a = e_force i' a) ->
+  last_ft (snd (eng_run Rops PI mass cv inc s (pre ++ [i]))) = last_ft (snd (eng_run Rops PI mass cv inc s' (pre' ++ [i']))).
+Proof. exact local_same. Qed.
+Lemma thm_subtract_applied : forall (mass : nat -> R) (cv : colvar) (pre : list einput) (s : estate) (i1 i2 : einput),
+  cv_samestep cv = false -> cv_subtract cv = true ->
+  Forall (fun p => forall fc, cvc_ft Rops PI mass (e_pos i1) (fst p) (cvc_apply Rops PI mass (e_pos i1) (fst p) fc) = fc) (cv_comps cv) ->
+  ForallOrdPairs (fun p q => forall a, In a (cvc_atoms (fst p)) -> ~ In a (cvc_atoms (fst q))) (cv_comps cv) ->
+  cv_sqnorm Rops cv <> 0 ->
+  last_ft (snd (eng_run Rops PI mass cv true s (pre ++ [i1; i2]))) =
+    cv_proj Rops PI mass (e_pos i1) cv (e_force i1) + (if cv_hide cv then 0 else cv_fj Rops PI mass (e_pos i1) cv).
+Proof. intros mass cv pre s i1 i2 H Hsb Hi Hd Hs. assert (Hok : cv_inv_ok mass (e_pos i1) cv) by (repeat split; assumption). exact (subtract_applied mass cv pre s i1 i2 H Hsb Hok). Qed.
+Lemma thm_without_subtract : forall (mass : nat -> R) (cv : colvar) (pre : list einput) (s : estate) (i1 i2 : einput),
+  cv_samestep cv = false -> cv_subtract cv = false ->
+  Forall (fun p => forall fc, cvc_ft Rops PI mass (e_pos i1) (fst p) (cvc_apply Rops PI mass (e_pos i1) (fst p) fc) = fc) (cv_comps cv) ->
+  ForallOrdPairs (fun p q => forall a, In a (cvc_atoms (fst p)) -> ~ In a (cvc_atoms (fst q))) (cv_comps cv) ->
+  cv_sqnorm Rops cv <> 0 ->
+  last_ft (snd (eng_run Rops PI mass cv true s (pre ++ [i1; i2]))) =
+    cv_proj Rops PI mass (e_pos i1) cv (e_force i1) + applied_force Rops cv (e_fb i1) (cv_fj Rops PI mass (e_pos i1) cv)
+    + (if adds_fj cv then cv_fj Rops PI mass (e_pos i1) cv else 0).
+Proof. intros mass cv pre s i1 i2 H Hsb Hi Hd Hs. assert (Hok : cv_inv_ok mass (e_pos i1) cv) by (repeat split; assumption). exact (without_subtract mass cv pre s i1 i2 H Hsb Hok). Qed.
+Lemma thm_timing : forall (mass : nat -> R) (cv : colvar) (inc : bool) (i1 i2 : einput),
+  cv_samestep cv = false -> forall (pre : list einput) (s : estate),
+  last_ft (snd (eng_run Rops PI mass cv inc s (pre ++ [i1; i2]))) =
+    cv_proj Rops PI mass (e_pos i1) cv
+      (if inc then fadd Rops (e_force i1) (cv_apply Rops PI mass (e_pos i1) cv (applied_force Rops cv (e_fb i1) (cv_fj Rops PI mass (e_pos i1) cv))) else e_force i1)
+    + (if adds_fj cv then cv_fj Rops PI mass (e_pos i1) cv else 0)
+    - (if cv_subtract cv then applied_force Rops cv (e_fb i1) (cv_fj Rops PI mass (e_pos i1) cv) else 0).
+Proof. exact history_lag. Qed.
+Lemma thm_timing_same_step : forall (mass : nat -> R) (cv : colvar) (inc : bool) (i : einput),
+  cv_samestep cv = true -> forall (pre : list einput) (s : estate),
+  last_ft (snd (eng_run Rops PI mass cv inc s (pre ++ [i]))) =
+    cv_proj Rops PI mass (e_pos i) cv (e_force i) + (if cv_hide cv then 0 else cv_fj Rops PI mass (e_pos i) cv).
+Proof. exact history_same. Qed.
+Lemma thm_timing_first_step : forall (mass : nat -> R) (cv : colvar) (inc : bool) (i : einput),
+  cv_samestep cv = false -> last_ft (snd (eng_run Rops PI mass cv inc (eng_init Rops) [i])) = 0.
+Proof. exact history_first_lag. Qed.
+Lemma thm_jacobian_closed_forms : forall (mass : nat -> R) (pos : RF),
+  (forall g1 g2 os, vnorm Rops (dist_v Rops mass pos g1 g2) <> 0 ->
+     cvc_jd Rops PI mass pos (CDistance g1 g2 os) = 2 / cvc_value Rops PI mass pos (CDistance g1 g2 os)) /\
+  (forall gm gr gr2 ax os, cvc_jd Rops PI mass pos (CDistanceZ gm gr gr2 ax os) = 0) /\
+  (forall gm gr gr2 ax os, dxy_value Rops mass pos gm gr gr2 ax <> 0 ->
+     cvc_jd Rops PI mass pos (CDistanceXY gm gr gr2 ax os) = 1 / cvc_value Rops PI mass pos (CDistanceXY gm gr gr2 ax os)) /\
+  (forall g1 g2 g3 g4 os, cvc_jd Rops PI mass pos (CDihedral g1 g2 g3 g4 os) = 0) /\
+  (forall ids, gyr_value Rops pos ids <> 0 ->
+     cvc_jd Rops PI mass pos (CGyration ids) = (3 * ofnat Rops (length ids) - 4) / cvc_value Rops PI mass pos (CGyration ids)) /\
+  (forall ids refs, 0 < rmsd_value Rops pos ids refs None ->
+     cvc_jd Rops PI mass pos (CRmsd ids refs None) = (3 * ofnat Rops (length ids) - 1) / cvc_value Rops PI mass pos (CRmsd ids refs None)) /\
+  (forall ids refs rc, 0 < rmsd_value Rops pos ids refs (Some rc) ->
+     cvc_jd Rops PI mass pos (CRmsd ids refs (Some rc)) = (3 * ofnat Rops (length ids) - 4) / cvc_value Rops PI mass pos (CRmsd ids refs (Some rc))) /\
+  (forall ids refs evec c, cvc_jd Rops PI mass pos (CEigenvector ids refs evec c) = 0).
+Proof. intros mass pos. repeat split.
+  - intros g1 g2 os H. cbn [cvc_jd cvc_value]. unfold inv_or_zero. rs.
+    destruct (Reqb' (vnorm Rops (dist_v Rops mass pos g1 g2)) 0) eqn:E; [apply Reqb_true in E; contradiction|reflexivity].
+  - intros gm gr gr2 ax os H. cbn [cvc_jd cvc_value]. unfold inv_or_zero. rs.
+    destruct (Reqb' (dxy_value Rops mass pos gm gr gr2 ax) 0) eqn:E; [apply Reqb_true in E; contradiction|reflexivity].
+  - intros ids H. cbn [cvc_jd cvc_value]. unfold inv_or_zero. rs.
+    destruct (Reqb' (gyr_value Rops pos ids) 0) eqn:E; [apply Reqb_true in E; contradiction|reflexivity].
+  - intros ids refs H. cbn [cvc_jd cvc_value]. rs. apply Rltb_true in H. rewrite H. f_equal. ring.
+  - intros ids refs rc H. cbn [cvc_jd cvc_value]. rs. apply Rltb_true in H. rewrite H. f_equal. ring. Qed.
+
+(* ---- fully instantiated history statements: the premises of the history theorems are satisfiable ---- *)
+Lemma ex_split_ok pos h sb sm kT :
+  Forall (fun p => forall fc, cvc_ft Rops PI ex_mass pos (fst p) (cvc_apply Rops PI ex_mass pos (fst p) fc) = fc) (cv_comps (ex_cv h sb sm kT)) /\
+  ForallOrdPairs (fun p q => forall a, In a (cvc_atoms (fst p)) -> ~ In a (cvc_atoms (fst q))) (cv_comps (ex_cv h sb sm kT)) /\
+  cv_sqnorm Rops (ex_cv h sb sm kT) <> 0.
+Proof. exact (ex_cv_ok pos h sb sm kT). Qed.
+Lemma ex_lagged_jacobian pre s pos fb1 i2 kT :
+  last_ft (snd (eng_run Rops PI ex_mass (ex_cv false false false kT) true s (pre ++ [mkEinput pos (fzero Rops) fb1; i2])))
+  = fb1 + cv_fj Rops PI ex_mass pos (ex_cv false false false kT).
+Proof.
+  destruct (ex_split_ok pos false false false kT) as (A & B & C).
+  exact (thm_inverse_lagged_jacobian ex_mass (ex_cv false false false kT) pre s (mkEinput pos (fzero Rops) fb1) i2 eq_refl eq_refl eq_refl A B C (fun _ _ => eq_refl)).
+Qed.
+Lemma ex_lagged_hidden pre s pos fb1 i2 kT :
+  last_ft (snd (eng_run Rops PI ex_mass (ex_cv true false false kT) true s (pre ++ [mkEinput pos (fzero Rops) fb1; i2]))) = fb1.
+Proof.
+  destruct (ex_split_ok pos true false false kT) as (A & B & C).
+  exact (thm_inverse_lagged_hidden ex_mass (ex_cv true false false kT) pre s (mkEinput pos (fzero Rops) fb1) i2 eq_refl eq_refl eq_refl A B C (fun _ _ => eq_refl)).
+Qed.
+Lemma ex_lagged_T0 pre s pos fb1 i2 h :
+  last_ft (snd (eng_run Rops PI ex_mass (ex_cv h false false 0) true s (pre ++ [mkEinput pos (fzero Rops) fb1; i2]))) = fb1.
+Proof.
+  destruct (ex_split_ok pos h false false 0) as (A & B & C).
+  exact (thm_inverse_lagged_T0 ex_mass (ex_cv h false false 0) pre s (mkEinput pos (fzero Rops) fb1) i2 eq_refl eq_refl eq_refl A B C (fun _ _ => eq_refl)).
+Qed.
+Lemma ex_same_step inc pre s pos fb f h sb kT :
+  last_ft (snd (eng_run Rops PI ex_mass (ex_cv h sb true kT) inc s
+                  (pre ++ [mkEinput pos (cv_apply Rops PI ex_mass pos (ex_cv h sb true kT) f) fb])))
+  = f + (if h then 0 else cv_fj Rops PI ex_mass pos (ex_cv h sb true kT)).
+Proof.
+  destruct (ex_split_ok pos h sb true kT) as (A & B & C).
+  exact (thm_inverse_same_step ex_mass (ex_cv h sb true kT) inc pre s (mkEinput pos (cv_apply Rops PI ex_mass pos (ex_cv h sb true kT) f) fb) f eq_refl A B C (fun _ _ => eq_refl)).
+Qed.
+Lemma ex_subtract pre s pos F fb1 i2 h kT :
+  last_ft (snd (eng_run Rops PI ex_mass (ex_cv h true false kT) true s (pre ++ [mkEinput pos F fb1; i2])))
+  = cv_proj Rops PI ex_mass pos (ex_cv h true false kT) F + (if h then 0 else cv_fj Rops PI ex_mass pos (ex_cv h true false kT)).
+Proof.
+  destruct (ex_split_ok pos h true false kT) as (A & B & C).
+  exact (thm_subtract_applied ex_mass (ex_cv h true false kT) pre s (mkEinput pos F fb1) i2 eq_refl eq_refl A B C).
+Qed.
